@@ -1,5 +1,6 @@
 //! E5 `schedmc` — stateless, deviation-bounded schedule and fault-point exploration of the real
 //! client and server under the deterministic executor (`crate::det`).
+pub mod c01;
 pub mod c07;
 pub mod c09;
 pub mod common;
